@@ -43,6 +43,11 @@ def main():
 
     hashseeds = a.hashseeds.split(',') if a.hashseeds else (['0'] if a.tier == 'quick' else ['0', '1', '2'])
     evs, rc, alllines = [], 0, []
+    # replays of earlier runs are stale: the directory only holds the violations of this run
+    repdir = os.path.join(os.environ.get('VERIF_SCRATCH') or os.path.join(VERIF, 'replays'), pid)
+    if os.path.isdir(repdir):
+        for fn in os.listdir(repdir):
+            if fn.endswith('.json'): os.remove(os.path.join(repdir, fn))
     for hs in hashseeds:
         fd, out = tempfile.mkstemp(prefix='verif_' + pid + '_', suffix='.json', dir=os.environ.get('VERIF_SCRATCH') or os.path.join(VERIF, 'evidence'))
         os.close(fd)
